@@ -129,6 +129,12 @@ func (mv *MessageView) SnapshotRequest(req *http.Request) error {
 	mv.traileroffset = int64(buf.Len())
 
 	req.Body = ioutil.NopCloser(bytes.NewReader(data))
+	if len(data) == 0 {
+		// Keep an empty body recognisable as "no body": net/http frames a
+		// request with ContentLength 0 and a body other than http.NoBody as a
+		// body of unknown length (Transfer-Encoding: chunked).
+		req.Body = http.NoBody
+	}
 
 	if req.Trailer != nil {
 		req.Trailer.Write(buf)
